@@ -549,7 +549,7 @@ func TestC13(t *testing.T) {
 			scripts = append(scripts, s)
 		}
 	}
-	reps := rec.N(4, 200)
+	reps := rec.N(4, 600)
 	rec.Suite("client-scripts", len(scripts)*reps, func(c *ev.Case) {
 		sc := scripts[c.I%len(scripts)]
 		c.Class("N=%d/%s/%s/W>R=%v/defaults=%v", sc.N, aNames[sc.pattern], sNames[sc.schedule], sc.W > sc.R, sc.defaults)
@@ -567,7 +567,7 @@ func TestC13(t *testing.T) {
 		}
 	})
 	rec.Exhaustive("client-write-faults")
-	rec.Suite("server-dwr-concurrent", rec.N(40, 20000), func(c *ev.Case) {
+	rec.Suite("server-dwr-concurrent", rec.N(40, 60000), func(c *ev.Case) {
 		K := 2 + c.I%5
 		c.Class("server-dwr-concurrent/K=%d", K)
 		leak := runBubbleWD(t, rec, c, 60*time.Second, func() { runC13Concurrent(c, ctx, K, 40) })
@@ -575,7 +575,7 @@ func TestC13(t *testing.T) {
 			c.Fail(ev.Sig{"op": "bubble-leak", "role": "server"}, nil, nil, "goroutines left blocked after the scenario: %s", leak)
 		}
 	})
-	rec.Suite("server-dwr", rec.N(64, 40000), func(c *ev.Case) {
+	rec.Suite("server-dwr", rec.N(64, 200000), func(c *ev.Case) {
 		c.Class("server-dwr/variant=%d", c.I%8)
 		leak := runBubbleWD(t, rec, c, 60*time.Second, func() { runC13Server(c, ctx, c.I%8) })
 		if leak != "" && !c.Failed() {
